@@ -169,10 +169,18 @@ def wf_index(tree, nodes, *, expected_id=None, probe_ids=(), probe_data=(), id_o
         try:
             if d is None:
                 continue
-            got = list(tree.find_all(data_id=d))
+            got = tree.find_all(data_id=d)
             cnt("find_all(data_id)")
             if _idset(got) != _idset(want):
                 errs.append(f"find_all(data_id={d!r}) returns {got!r}, nodes carrying that id: {want!r}")
+            if len(want) > 1:
+                # the result belongs to the caller: emptying it must not change what the next lookup returns
+                got.clear()
+                again = list(tree.find_all(data_id=d))
+                cnt("find_all(data_id) after caller emptied the previous result")
+                if _idset(again) != _idset(want):
+                    errs.append(f"after the list returned by find_all(data_id={d!r}) was emptied by the caller, the same lookup returns {again!r}, "
+                                f"nodes carrying that id: {want!r}")
             ff = tree.find_first(data_id=d)
             cnt("find_first(data_id)")
             if (ff is None) != (not want) or (ff is not None and not any(ff is w for w in want)):
@@ -242,6 +250,39 @@ def wf_index(tree, nodes, *, expected_id=None, probe_ids=(), probe_data=(), id_o
                     errs.append(f"({data!r} in tree) is {isin}, nodes with id {d!r}: {want!r}")
             except Exception as e:
                 errs.append(f"lookup of data {data!r} raised {e!r}")
+            if len(errs) > 8:
+                return errs
+        # the same lookups restricted to a branch (Node.find_all / find_first with a data object or an id)
+        done = 0
+        for n in nodes:
+            par = n.parent
+            if par is None or done >= 12:
+                continue
+            try:
+                d = n.data_id
+                if id_of_data(n.data) != d:
+                    continue  # explicit id: the data object does not determine it
+                done += 1
+                below = []
+
+                def rec(h):
+                    for c in h.children:
+                        below.append(c)
+                        rec(c)
+
+                rec(par)
+                want = [x for x in below if x.data_id == d]
+                got = list(par.find_all(n.data))
+                got2 = list(par.find_all(data_id=d))
+                ff = par.find_first(n.data)
+                cnt("node.find_all(data)")
+                if _idset(got) != _idset(want) or _idset(got2) != _idset(want):
+                    errs.append(f"{safe_repr(par)}.find_all({n.data!r}) returns {got!r}, find_all(data_id={d!r}) returns {got2!r}, "
+                                f"nodes of that branch carrying the id: {want!r}")
+                elif ff is None or not any(ff is w for w in want):
+                    errs.append(f"{safe_repr(par)}.find_first({n.data!r}) returns {ff!r}, nodes of that branch carrying the id: {want!r}")
+            except Exception as e:
+                errs.append(f"branch lookup of data {n.data!r} raised {e!r}")
             if len(errs) > 8:
                 return errs
     return errs
